@@ -12,12 +12,28 @@
 (* prepare/assemble; a throwing task constructor cannot be injected).          *)
 EXTENDS ThreadAsm, Json
 
-VARIABLES hist, emitted
-svars == <<vars, hist, emitted>>
+VARIABLES hist, emitted,
+          entered     \* threads that have called wait() on a fence and may be blocked inside it (scheduler annotation, see SEnter)
+svars == <<vars, hist, emitted, entered>>
 
 E(name, t, a, ok) == [ev |-> name, t |-> t, a |-> a, ok |-> ok]
-Lab(act, e) == act /\ hist' = Append(hist, e) /\ UNCHANGED emitted
-Sil(act) == act /\ UNCHANGED <<hist, emitted>>
+Lab(act, e) == act /\ hist' = Append(hist, e) /\ entered' = entered \ {e.t} /\ UNCHANGED emitted
+Sil(act) == act /\ UNCHANGED <<hist, emitted, entered>>
+
+\* ThreadAsm models wait(f) as ONE step that is enabled iff f is open.  The real call may be made earlier and then BLOCKS on the
+\* fence's condition variable until another thread opens the fence.  A schedule may therefore contain the pseudo event
+\* "wenter": the thread calls wait() now (the replayer lets it run into the call without waiting for the fence), while its
+\* "wait" event - the model's step - stays where the model takes it.  This makes the wake-up path (several threads blocked on
+\* one fence when it is opened) part of the forced schedules; the state of ThreadAsm is not changed by the annotation.
+WaitFenceOf(t) ==      \* the fence thread t is about to wait for, -1 if its next step is not a wait
+  IF t = 0 THEN (IF mpc \in {"c_wait1", "c_wait2"} THEN mi ELSE -1)
+  ELSE CASE wpc[t] \in {"waitfront", "c_waitfront"} -> 0
+         [] wpc[t] = "waitnext" -> t + 1
+         [] wpc[t] = "c_waitback" -> Back
+         [] OTHER -> -1
+SEnter(t) == /\ WaitFenceOf(t) # -1 /\ t \notin entered
+             /\ entered' = entered \cup {t} /\ hist' = Append(hist, E("wenter", t, WaitFenceOf(t), TRUE))
+             /\ UNCHANGED <<vars, emitted>>
 
 SMaster ==
   \/ Sil(MStart) \/ Sil(MSpawn) \/ Sil(MJoin) \/ Sil(MEndJob) \/ Sil(MColCheck)
@@ -69,9 +85,9 @@ SWorker(w) ==
 
 \* the behaviour is complete: print its schedule once, then stop
 SEmit == Finished /\ ~emitted /\ emitted' = TRUE /\ PrintT(ToJson([sched |-> hist, failed |-> (\E k \in 1..Len(hist) : hist[k].ev = "throw")]))
-         /\ UNCHANGED <<vars, hist>>
+         /\ UNCHANGED <<vars, hist, entered>>
 
-SInit == Init /\ hist = <<>> /\ emitted = FALSE
-SNext == SMaster \/ (\E w \in Workers : SWorker(w)) \/ SEmit
+SInit == Init /\ hist = <<>> /\ emitted = FALSE /\ entered = {}
+SNext == SMaster \/ (\E w \in Workers : SWorker(w)) \/ (\E t \in 0..W : SEnter(t)) \/ SEmit
 SchedSpec == SInit /\ [][SNext]_svars
 =============================================================================
